@@ -9,6 +9,9 @@ mod endpoint_addr;
 mod key;
 #[cfg(feature = "relay")]
 mod relay_url;
+#[cfg(all(kani, feature = "key"))]
+#[path = "/verif/kani/iroh_base/support.rs"]
+pub mod verif_support;
 
 #[cfg(feature = "key")]
 pub use self::endpoint_addr::{CustomAddr, EndpointAddr, TransportAddr};
